@@ -11,24 +11,37 @@ namespace Wire
 
 /-! ### varint -/
 
-theorem decVarint_enc (n : Nat) : ∀ rest : Bytes, decVarint (encVarint n ++ rest) = some (n, rest) := by
-  induction n using Nat.strongRecOn with
-  | _ n ih =>
-    intro rest
-    rw [encVarint]
+theorem decVarint_encF : ∀ (f n : Nat) (rest : Bytes), n ≤ f →
+    decVarint (encVarintF f n ++ rest) = some (n, rest) := by
+  intro f
+  induction f with
+  | zero =>
+    intro n rest h
+    have : n = 0 := by omega
+    subst this
+    simp [encVarintF, decVarint]
+  | succ f ih =>
+    intro n rest h
+    simp only [encVarintF]
     split
-    · rename_i h
-      simp [decVarint, h]
-    · rename_i h
-      have h1 : ¬ (n % 128 + 128 < 128) := by omega
-      have h2 : n % 128 + 128 < 256 := by omega
-      have := ih (n / 128) (by omega) rest
-      simp only [List.cons_append, decVarint, h1, h2, if_true, if_false, this]
+    · rename_i h1
+      simp [decVarint, h1]
+    · rename_i h1
+      have h2 : ¬ (n % 128 + 128 < 128) := by omega
+      have h3 : n % 128 + 128 < 256 := by omega
+      have := ih (n / 128) rest (by omega)
+      simp only [List.cons_append, decVarint, h2, h3, if_true, if_false, this]
       congr 2
       omega
 
+theorem decVarint_enc (n : Nat) (rest : Bytes) : decVarint (encVarint n ++ rest) = some (n, rest) :=
+  decVarint_encF n n rest (Nat.le_refl n)
+
 theorem encVarint_ne_nil (n : Nat) : encVarint n ≠ [] := by
-  rw [encVarint]; split <;> simp
+  unfold encVarint
+  cases n with
+  | zero => simp [encVarintF]
+  | succ k => simp only [encVarintF]; split <;> simp
 
 /-! ### fixed width -/
 
